@@ -157,3 +157,38 @@ func inspectNoLit(st ast.Stmt, f func(any)) {
 		return true
 	})
 }
+
+// resultAssignedInGoroutine reports whether the variable returned by the function's final
+// return statement is assigned inside a function literal (goroutine body).
+func resultAssignedInGoroutine(fd *ast.FuncDecl) bool {
+	if fd.Body == nil || len(fd.Body.List) == 0 {
+		return false
+	}
+	ret, ok := fd.Body.List[len(fd.Body.List)-1].(*ast.ReturnStmt)
+	if !ok || len(ret.Results) == 0 {
+		return false
+	}
+	id, ok := ret.Results[0].(*ast.Ident)
+	if !ok {
+		return false
+	}
+	found := false
+	ast.Inspect(fd.Body, func(n ast.Node) bool {
+		lit, ok := n.(*ast.FuncLit)
+		if !ok {
+			return true
+		}
+		ast.Inspect(lit.Body, func(m ast.Node) bool {
+			if as, ok := m.(*ast.AssignStmt); ok {
+				for _, l := range as.Lhs {
+					if li, ok := l.(*ast.Ident); ok && li.Name == id.Name {
+						found = true
+					}
+				}
+			}
+			return true
+		})
+		return false
+	})
+	return found
+}
